@@ -266,6 +266,8 @@ class XPowGate(eigen_gate.EigenGate):
 
     def _phase_by_(self, phase_turns, qubit_index):
         """See `cirq.SupportsPhase`."""
+        if self._dimension != 2:
+            return NotImplemented  # the phased gates below are qubit gates
         return _phased_x_or_pauli_gate(exponent=self._exponent, phase_exponent=phase_turns * 2)
 
     def _has_stabilizer_effect_(self) -> bool | None:
